@@ -149,6 +149,8 @@ let () =
 def parse_answers(enc, line):
     if not line.startswith("A"):
         return line
+    if len(line) > 6000:
+        return "TOOLARGE"       # hundreds of (mostly duplicate) solutions: skipped and counted
     res = []
     for part in line.split(" ; ")[1:]:
         t, _ = enc.dec(part.split())
@@ -182,7 +184,7 @@ def run_programs(batch):
             except BaseException as e:  # noqa
                 if isinstance(e, (KeyboardInterrupt, SystemExit)):
                     raise
-                res.append(('err', pl.err_class(e)))
+                res.append(('err', 'OccursCheck' if type(e).__name__ == 'OccursCheck' else pl.err_class(e)))
                 eng = DefaultEngine()
                 db = eng.prepare(PrologString(src))
         out.append(res)
@@ -341,8 +343,10 @@ def gen_program(rng):
                 elif r < 0.9 and bound:
                     goals.append(('neq' if rng.random() < 0.5 else 'eq', rng.choice(sorted(bound)), rng.choice(CONSTS)))
                 elif bound:
-                    goals.append(('eq', rng.choice(vars_pool), C('f', rng.choice(sorted(bound)))))
-                    bound.add(goals[-1][1])
+                    inner = rng.choice(sorted(bound))
+                    outer = rng.choice([v for v in vars_pool if v != inner])    # never X = f(X)
+                    goals.append(('eq', outer, C('f', inner)))
+                    bound.add(outer)
             hb = sorted(bound)
             head_args = [rng.choice(hb) if hb and rng.random() < 0.85 else rng.choice(CONSTS) for _ in range(ar)]
             body = goals[-1]
@@ -505,7 +509,7 @@ def coq_res(res):
 
 
 def run_index(ctx):
-    n = ctx.n(600, 12000)
+    n = ctx.n(400, 10000)
     hists = [index_history(ctx.rng) for _ in range(n)]
     # the DESIGN witness first: p(X,1). p(a,2). p(Y,4).  find(a, _)
     hists.insert(0, (2, [('append', [None, 0]), ('append', [0, 1]), ('append', [None, 2]), ('find', [0, None]), ('find', [0, None])]))
@@ -585,24 +589,113 @@ def prog_text(prog):
     return "\n".join(clause_text(h, b) for h, b in prog) + "\n"
 
 
+def judge_one(observe, expected, exp_set, ob):
+    """The property-level verdict for one query: (ok, why)."""
+    if ob[0] == 'err':
+        return False, "engine raised %s" % ob[1]
+    if observe == 'list' and isinstance(expected, list):
+        el = [T.canon(C('ans', *t[2])) for t in expected]
+        if len(ob[1]) != 1 or len(el) != 1:
+            return False, "findall wrapper has %d answers, reference %d" % (len(ob[1]), len(el))
+        le, lo = list_items(el[0][2][0]), list_items(ob[1][0][2][0])
+        if le is None or lo is None:
+            return False, "findall result is not a proper list: %s" % (T.show_obs(ob),)
+        if [T.canon(x) for x in lo] != [T.canon(x) for x in le]:
+            return False, "findall list %s differs from the SLD list %s" % (T.show_obs(ob), [T.text_canon(x) for x in el])
+        if ob[1][0] != el[0]:
+            return False, ("findall list %s has the solutions of %s in SLD order but identifies variables of different solutions"
+                           % (T.show_obs(ob), [T.text_canon(x) for x in el]))
+        return True, ""
+    if set(ob[1]) != exp_set:
+        return False, "answer set %s differs from the reference %s" % (
+            sorted(T.text_canon(x) for x in set(ob[1])), sorted(T.text_canon(x) for x in exp_set))
+    return True, ""
+
+
 def classify_prog(prog, query, observe, expected, observed):
-    """Narrow class of an engine/reference disagreement, or None."""
-    if observed[0] != 'ok' or not isinstance(expected, list):
+    """Narrow class (input feature + symptom) of an engine/reference disagreement, or None.
+      clause-index-order                      findall over one call to a facts-only predicate with a ground argument in a position where a
+                                              clause with a non-ground argument precedes one with a ground argument (direct_index_case);
+                                              symptom: the findall list is a permutation of the SLD list
+      findall-order-not-sld                   any other findall goal (rules, conjunctions, disjunctions, duplicate solutions); same symptom
+                                              (findall orders solutions by the highest formula-node id of their proof, which follows SLD
+                                              order only while no proof reuses an older node; index order also propagates through rules)
+      findall-solutions-share-variables       non-ground solutions; symptom: right solutions in the right order, but variables of
+                                              different solutions are the same variable"""
+    if observed[0] != 'ok' or not isinstance(expected, list) or observe != 'list':
         return None
     exp = [T.canon(C('ans', *t[2])) for t in expected]
     obs = observed[1]
-    if observe == 'list' and len(obs) == 1 and len(exp) == 1:
-        eo, oo = exp[0], obs[0]
-        le, lo = list_items(eo[2][0]), list_items(oo[2][0])
-        if le is not None and lo is not None and le != lo:
-            if sorted(map(repr, le)) == sorted(map(repr, lo)):
-                # same multiset, other order
-                if index_order_feature(prog):
-                    return "clause-index-order"
-                return "findall-order"
-            if set(map(repr, le)) == set(map(repr, lo)) and len(lo) < len(le):
-                return "findall-duplicates-collapsed"
+    if len(obs) != 1 or len(exp) != 1:
+        return None
+    le, lo = list_items(exp[0][2][0]), list_items(obs[0][2][0])
+    if le is None or lo is None:
+        return None
+    ce, co = [T.canon(x) for x in le], [T.canon(x) for x in lo]
+    if ce == co:
+        if obs[0] != exp[0] and any(T.tvars(x) for x in le):
+            return "findall-solutions-share-variables"
+        return None
+    if sorted(map(repr, ce)) == sorted(map(repr, co)):
+        if direct_index_case(prog, query):
+            return "clause-index-order"
+        return "findall-order-not-sld"
     return None
+
+
+def direct_index_case(prog, query):
+    """The queried wrapper is `w(L) :- findall(T, p(args), L)` where p is defined by facts only, and some ground
+    argument of the call sits in a position where a clause of p with a non-ground argument precedes a clause with a
+    ground one.  (Facts get fresh formula nodes in call order, so the max-node ordering of findall cannot be the
+    cause here: the clause order delivered by ClauseIndex.find is.)"""
+    defs = [b for h, b in prog if h[1] == query[1] and len(h[2]) == len(query[2])]
+    if len(defs) != 1 or defs[0][0] != 'findall' or defs[0][2][0] != 'call':
+        return False
+    call = defs[0][2][1]
+    heads = [(h, b) for h, b in prog if h[1] == call[1] and len(h[2]) == len(call[2])]
+    if not heads or any(b[0] != 'true' for h, b in heads):
+        return False
+    for j, a in enumerate(call[2]):
+        if T.tvars(a) or a[0] == '_':
+            continue
+        seen_var = False
+        for h, _ in heads:
+            if T.tvars(h[2][j]) or h[2][j][0] == '_':
+                seen_var = True
+            elif seen_var:
+                return True
+    return False
+
+
+def multi_reach(prog, query):
+    """Some predicate is reached through at least two body literals from the query."""
+    by = {}
+    for h, b in prog:
+        by.setdefault((h[1], len(h[2])), []).append(b)
+
+    def lits(g):
+        if g[0] == 'call':
+            return [(g[1][1], len(g[1][2]))]
+        if g[0] in ('and', 'or'):
+            return lits(g[1]) + lits(g[2])
+        if g[0] == 'not':
+            return lits(g[1])
+        if g[0] == 'findall':
+            return lits(g[2])
+        return []
+    count = {}
+    seen = set()
+    todo = [(query[1], len(query[2]))]
+    while todo:
+        p = todo.pop()
+        if p in seen:
+            continue
+        seen.add(p)
+        for b in by.get(p, []):
+            for l in lits(b):
+                count[l] = count.get(l, 0) + 1
+                todo.append(l)
+    return any(v >= 2 for v in count.values())
 
 
 def list_items(t):
@@ -631,7 +724,7 @@ def index_order_feature(prog):
 
 
 def run_progs(ctx, exe):
-    nprog = ctx.n(250, 5000)
+    nprog = ctx.n(160, 4000)
     items = []
     for i in range(nprog):
         r = ctx.rng.random()
@@ -649,7 +742,9 @@ def run_progs(ctx, exe):
                 continue
             reqs.append(request(enc, [(T.strip_quote(h), b) for h, b in prog], q, 400))
             meta.append((pi, q))
+    ctx.log("SLD reference: %d queries" % len(reqs))
     answers = ctx.oracle(exe, reqs, timeout=1800)
+    ctx.log("engine: %d programs" % len(items))
     ref = {}
     for (pi, q), a in zip(meta, answers):
         ref[(pi, q)] = parse_answers(enc, a)
@@ -658,6 +753,7 @@ def run_progs(ctx, exe):
     obs_all = []
     for r in pl.pmap(run_programs, batches, jobs=ctx.n(8, 14), chunksize=1):
         obs_all.extend(r)
+    ctx.log("judging")
     reported = {}
     for pi, ((prog, queries, kind), obs) in enumerate(zip(items, obs_all)):
         ctx.count("programs_" + kind.split('-')[0])
@@ -691,17 +787,11 @@ def run_progs(ctx, exe):
             ctx.case((prog_text(prog), text(q)), nontrivial,
                      sample={"program": prog_text(prog), "query": text(q), "kind": kind, "observe": observe,
                              "expected": sorted(T.text_canon(x) for x in exp_set), "observed": T.show_obs(ob)})
-            ok, why = True, ""
-            if ob[0] == 'err':
-                ok, why = False, "engine raised %s" % ob[1]
-            else:
-                if set(ob[1]) != exp_set:
-                    ok, why = False, "answer set %s differs from the reference %s" % (
-                        sorted(T.text_canon(x) for x in set(ob[1])), sorted(T.text_canon(x) for x in exp_set))
-                elif observe == 'list' and isinstance(expected, list):
-                    el = [T.canon(C('ans', *t[2])) for t in expected]
-                    if ob[1] != el:
-                        ok, why = False, "findall list %s differs from SLD order %s" % (T.show_obs(ob), [T.text_canon(x) for x in el])
+            if ob == ('err', 'OccursCheck'):
+                # C14 lets a unification that needs the occurs check raise instead of fail; not this property's business
+                ctx.count("skipped_engine_raised_OccursCheck")
+                continue
+            ok, why = judge_one(observe, expected, exp_set, ob)
             if not ok:
                 klass = classify_prog(prog, q, observe, expected, ob)
                 ctx.count("disagree_" + str(klass))
@@ -758,12 +848,7 @@ def evaluate_one(prog, q, observe, exe, enc, kind, ctx=None):
             return expected, None, True
         exp_set = set(T.canon(C('ans', *t[2])) for t in expected)
     ob = run_programs([(prog_text(prog), [text(q)])])[0][0]
-    if ob[0] == 'err':
-        return expected, ob, False
-    ok = set(ob[1]) == exp_set
-    if ok and observe == 'list' and isinstance(expected, list):
-        ok = ob[1] == [T.canon(C('ans', *t[2])) for t in expected]
-    return expected, ob, ok
+    return expected, ob, judge_one(observe, expected, exp_set, ob)[0]
 
 
 def describe(prog, q, observe, exe, enc, kind):
@@ -831,9 +916,13 @@ def run(ctx):
         "non-recursive Datalog programs of the same run",
         "clause ids grow in program order (ClauseDB._append_node), which is what 'sorted' means in C13_index_order",
     ]
+    import sys
+    sys.setrecursionlimit(200000)
     ctx.prove("C13/Props.v")
     if ctx.tier == "thorough":
         ctx.coqchk("PL.C13.Props")
+    ctx.log("ClauseIndex histories")
     run_index(ctx)
+    ctx.log("building oracle")
     exe = ctx.ocaml_oracle("c13", EXTRACT_V, DRIVER_ML)
     run_progs(ctx, exe)
